@@ -227,6 +227,47 @@ def wiring(chk, r, n):
             else:
                 chk.violation("compound_step (call sampler): " + bad, rep, "C02/wiring/compound_step")
 
+        # ---- inside a compound step every copy is drawn from the vector of the state as it is at that moment: the real kernels
+        # run, wrapped; each result is compared with the kernel run afresh on the current state with the standard arguments alone
+        std = ("genotype_alleles", "variable_allele", "haplotypes", "reads", "read_counts", "inbreeding", "llks_array", "lpriors_array",
+               "probabilities_array", "frequencies", "llk_cache")
+        stale = []
+
+        def wrap(kind_):
+            real = orig[kind_]
+
+            def f_(*a, **kw):
+                d = dict(sigs[kind_].bind(*a, **kw).arguments)
+                out = real(*a, **kw)
+                fa = {k_: d.get(k_) for k_ in std}
+                fa["genotype_alleles"] = d["genotype_alleles"].copy()
+                for k_ in ("llks_array", "lpriors_array", "probabilities_array"):
+                    fa[k_] = np.full_like(d[k_], np.nan)
+                fa["llk_cache"] = None
+                real(**fa)
+                if not np.allclose(d["probabilities_array"], fa["probabilities_array"], rtol=rel_of(F), atol=1e-12, equal_nan=True):
+                    stale.append({"slot": int(d["variable_allele"]), "state": d["genotype_alleles"].tolist(),
+                                  "used": d["probabilities_array"].tolist(), "of_the_current_state": fa["probabilities_array"].tolist()})
+                return out
+            return f_
+        geno2 = np.array(sorted(alleles), dtype=np.int64)
+        l0_ = float(mcmc.log_likelihood_alleles(reads, counts, harr, geno2)) if hasattr(mcmc, "log_likelihood_alleles") else 0.0
+        if math.isfinite(l0_) and not (F == 0 and f0_product_underflows(alleles, freqs)):
+            g["gibbs_options"], g["mh_options"] = wrap("gibbs_options"), wrap("mh_options")
+            try:
+                np.random.seed(r.randrange(2 ** 31))
+                for _ in range(3):
+                    try:
+                        f(geno2, harr, reads, counts, F, frequencies=freqs, llk_cache=None, step_type=st)
+                    except (AssertionError, ValueError, ZeroDivisionError):
+                        break
+            finally:
+                g.update(orig)
+            chk.count("wiring:vectors-inside-a-compound-step")
+            if stale:
+                chk.violation("inside a compound step an allele is drawn from a vector that is not the Gibbs / MH vector of the state at "
+                              "that moment", {**case, **stale[0], "n_updates_affected": len(stale)}, "C02/wiring/stale-vector")
+
         # ---- mcmc_sampler -> compound_step
         f2 = mcmc.mcmc_sampler.py_func
         g2 = f2.__globals__
